@@ -160,6 +160,53 @@ def oracle_all(ctx, o, first_only=False):
                     "True exactly for secrets equal under the format's documented equivalences")
             if fails and first_only:
                 return fails
+    # ---- context keyword `encoding`: the password is text in another code page; hash and verify must agree on it
+    for name in [n for n in vc.all_names() if "encoding" in (getattr(vc.handler(n), "context_kwds", ()) or ())]:
+        h = vc.handler(name)
+        for enc in ("latin-1", "cp1252", "koi8-r", "utf-8", "cp437"):
+            for text in ("caf\u00e9 au lait", "na\u00efve", "plain", "\u00e6\u00c6"):
+                try:
+                    raw = text.encode(enc)
+                except UnicodeEncodeError:
+                    continue
+                ck = dict(vc.ctx_kwds(h), encoding=enc)
+                inp = {"op": "encoding", "hasher": name, "encoding": enc, "secret": text}
+                st, hs = vc.safe_call(lambda: h.hash(text, **ck))
+                if st == "err":
+                    if isinstance(hs, (UnicodeEncodeError, UnicodeDecodeError)):
+                        continue
+                    chk(name + ":encoding-hash-succeeds", False, inp, errname(hs), "a hash")
+                    continue
+                st1, v1 = vc.safe_call(lambda: h.verify(text, hs, **ck))
+                st2, v2 = vc.safe_call(lambda: h.verify(raw, hs, **ck))
+                if name == "lmhash" and raw.upper() != text.upper().encode(enc):
+                    st2, v2 = "ok", True        # recorded finding lmhash-bytes-secret-ascii-only-uppercasing: bytes are upper-cased as ASCII only
+                chk(name + ":encoding-verifies", st1 == "ok" and v1 is True and st2 == "ok" and v2 is True, inp, {"text": str(v1)[:40], "bytes": str(v2)[:40]},
+                    "True for the text and for its bytes in that encoding")
+                st3, v3 = vc.safe_call(lambda: h.verify(text + "x", hs, **ck))
+                if name not in ("lmhash",) or len(text) < 14:
+                    chk(name + ":encoding-near-miss", st3 == "ok" and v3 is False, inp, str(v3)[:40], "False")
+    # ---- exactly the library-wide maximum is an admissible password
+    for name in ("md5_crypt", "sha256_crypt", "pbkdf2_sha256", "ldap_salted_sha1", "hex_sha256", "phpass", "mysql41", "nthash", "django_salted_sha1", "htdigest"):
+        h = vc.handler(name)
+        hh = vc.using(h, vc.cheap_settings(h, rng))
+        ck = vc.ctx_kwds(h)
+        pw = "".join(rng.choice("abcdefgh") for _ in range(4096))
+        st, hs = vc.safe_call(lambda: hh.hash(pw, **ck))
+        ok = st == "ok" and hh.verify(pw, hs, **ck) is True and hh.verify(pw[:-1] + "z", hs, **ck) is False
+        chk(name + ":max-size-password", ok, {"op": "max-size", "hasher": name, "length": 4096}, errname(hs) if st == "err" else "verify mismatch", "hashes, verifies, last byte matters")
+    # ---- the very first call of a process (lazy backend loading must not change the result)
+    from .C03 import worker
+
+    for cls in ("bcrypt_sha256", "django_bcrypt_sha256", "bcrypt", "sha256_crypt", "des_crypt"):
+        for first in ("hash", "verify"):
+            code_ops = [["calc", cls, b"pw".hex()], ["calc", cls, b"pw".hex()]]
+            res = worker(code_ops, False)
+            same = len(res) == 2 and res[0] == res[1] and res[0].startswith("ok ")
+            hs = res[0].split(" ", 2)[2] if same else None
+            good = same and vc.handler(cls).verify("pw", hs) is True
+            chk(cls + ":first-call-of-process", good, {"op": "first-call", "hasher": cls}, res, "the first hash of a fresh process equals the second and verifies")
+            break
     # libpass hashers
     from libpass.hashers.bcrypt import BcryptHasher, BcryptSHA256Hasher
     from libpass.hashers.pbkdf2 import PBKDF2SHA256Handler, PBKDF2SHA512Handler
@@ -216,5 +263,11 @@ def replay(ctx, inp):
             return {"fails": v is not True and inp["hasher"] not in vc.DISABLED, "observed": {"hash": hs, "verify": v}}
         except Exception as e:  # noqa: BLE001
             return {"fails": True, "observed": errname(e) + ": " + str(e)[:100]}
+    if inp.get("op") == "lmhash-bytes-case":
+        from passlib.hash import lmhash
+
+        hs = lmhash.hash("caf\u00e9", encoding="latin-1")
+        v = lmhash.verify("caf\u00e9".encode("latin-1"), hs, encoding="latin-1")
+        return {"fails": v is not True, "observed": {"hash": hs, "verify_bytes": v}}
     r = search(ctx, [], [])
     return {"fails": r is not None, "observed": r}
